@@ -52,7 +52,7 @@ CAUSED_BY = {
     "inline-name-not-unique": ["build/"],
     "length-target-not-a-packet": ["build/", "length-patch-shape", "unsupported-target-kind", "length-target-bookkeeping",
                                    "step-type-vs-member-type", "cpp-arrow-vs-member-kind", "reference-to-undeclared"],
-    "field-name-is-keyword": ["build/rust/identifier", "build/java/identifier", "build/cpp/identifier", "build/python/", "build/cpp/syntax", "build/java/syntax",
+    "field-name-is-keyword": ["build/rust/identifier", "build/java/", "build/cpp/identifier", "build/python/", "build/cpp/syntax",
                               "build/rust/syntax", "native-syntax/", "residue/", "other:", "python-empty-body"],
     "char-scalar-unsupported": ["incomplete/", "member-without-type", "other:unknown-type", "other:write-basic-type", "python-empty-body", "native-syntax/",
                                 "residue/", "boilerplate-names-non-member", "other:eq-compares", "step-type-vs-member-type", "other:checksum-service-type",
@@ -374,6 +374,47 @@ def run_c07(ctx):
                     ctx.sample({"target": lang, "dsl": t[:200], "verdict": "every line consumed, no marker, scoped, complete"}, 3)
     finally:
         rm(d)
+    # what is ON DISK after `compile` is the emitted program: the command writes over whatever an earlier, longer output left
+    # in the directory, and every file must be exactly what the generator produced (else the file is not the valid program)
+    import checks_front as _cf
+    import checks_driver as _cd
+    from common import build_harness as _bh
+    _hb, _cbin = _bh()
+    dd = scratch()
+    try:
+        done = 0
+        for (prof, t), item in zip(items, results):
+            if done >= (3 if ctx.tier == "quick" else 25) or "error" in item or prof != "safe":
+                continue
+            tg = {l: (item["targets"].get(l) or {}).get("files") for l in pipeline.ALL_TARGETS}
+            if not all(tg.values()):
+                continue
+            done += 1
+            f = os.path.join(dd, "p.dsl")
+            with open(f, "w") as fh:
+                fh.write(t)
+            o = os.path.join(dd, "out")
+            rm(o)
+            for l, files in tg.items():
+                for rel, body in files.items():
+                    pth = os.path.join(o, l, rel)
+                    os.makedirs(os.path.dirname(pth), exist_ok=True)
+                    with open(pth, "w", encoding="utf-8", newline="") as fh:
+                        fh.write(body + "\n/* tail of an earlier, longer output */\n" * 30)
+            args = ["compile", "-f", f]
+            for l in pipeline.ALL_TARGETS:
+                args += [_cd.FLAG[l], os.path.join(o, l)]
+            rc, out, err = _cf.cli(_cbin, args, dd)
+            ctx.count("compiled_over_existing_output")
+            for l, files in tg.items():
+                bad = [rel for rel, body in files.items()
+                       if not os.path.exists(os.path.join(o, l, rel)) or open(os.path.join(o, l, rel), encoding="utf-8", newline="").read() != body]
+                if rc != 0 or bad:
+                    ctx.finding("disk/%s/not-the-generated-file" % l,
+                                "after `compile` into a directory that held a longer earlier output, %s on disk is not the program the generator produced (exit %d)"
+                                % (bad[0] if bad else "?", rc), {"dsl": t, "target": l, "files": bad[:5]})
+    finally:
+        rm(dd)
     for sig in sorted(pending):
         slot = pending[sig]
         if "direct" in slot:
@@ -554,6 +595,15 @@ def run_c08(ctx):
             base = prog(forms[0][1], forms[0][2])
             for name, meta, field in forms[1:]:
                 pairs.append(("fixed-string-spelling/" + name, base, prog(meta, field)))
+            # the same for the default padding: none / spelled out / empty argument / through MetaData
+            dforms = [("plain", "", "%schar[8] Sym," % rep),
+                      ("explicit-default", "", "@rightPad(' ')\n    %schar[8] Sym," % rep),
+                      ("empty-argument", "", "@rightPad()\n    %schar[8] Sym," % rep),
+                      ("meta-char", "MetaData M {\n    char[8] Sym `s`,\n}\n\n", "%sSym," % rep),
+                      ("meta-char-attr", "MetaData M {\n    char[8] Sym `s`,\n}\n\n", "@rightPad(' ')\n    %sSym," % rep)]
+            dbase = prog(dforms[0][1], dforms[0][2])
+            for name, meta, field in dforms[1:]:
+                pairs.append(("default-pad-spelling/" + name, dbase, prog(meta, field)))
     ALL = pipeline.ALL_TARGETS
     ra = harness.run_ops([{"op": "gen", "text": a, "order": ALL, "fresh": True} for _, a, _ in pairs])
     rb = harness.run_ops([{"op": "gen", "text": b, "order": ALL, "fresh": True} for _, _, b in pairs])
